@@ -27,7 +27,7 @@ ASSUMPTIONS = {
 LEMMAS = {}
 UNVERIFIED = {"C02": [
     "rpds::Vector is stood in for by Vec (only len() and get() are used); lengths are assumed to fit in i64",
-    "argument-index slices: the catch-all arm of `match receiver_value.as_ref()` in a built-in method arm is taken to be unreachable (eval_method_call looks the method up under the receiver's own runtime type name, so DictItems is entered only with a Dict, and so on); an index that is wrong only on that arm is not reported",
+    "argument-index slices: (until the fifth session the catch-all arm of `match receiver_value.as_ref()` was taken to be unreachable; a user-defined `struct Float {}` reaches it, so it is followed now)",
     "argument-index slices: three explicit panic sites are not obligations: `.lock().expect(..)` on the output buffers (mutex poisoning), `duration_since(UNIX_EPOCH).unwrap()` (clock before 1970), and List::get's `.unwrap()` (proved separately as list_get_arm); every other unreachable!/panic!/todo!/unimplemented!/assert!/unwrap()/expect() inside a built-in arm is an obligation that must be dead under nondeterministic branch conditions",
     "argument-index slices (argidx_*): per arm of the two built-in dispatch functions, only `check_arity(.., N, ..)?` and the literal indexes `arg_values[k]` / `arg_positions[k]` are kept (control flow with nondeterministic conditions); computed indexes are not covered",
     "the bodies of the other built-in arms: string built-ins (String::substring's skip/take arithmetic), file and shell built-ins",
@@ -80,6 +80,9 @@ WITNESSES = [
     {"match": r"argidx_", "kind": "builtin-args", "props": ["C02"], "input": "", "preludes": _PRELUDES, "skip": ["read_line"],
      "min_inputs": 100, "timeout": 120, "expect": {}},
 ]
+sys.path.insert(0, HERE)
+import shadow_types  # noqa: E402
+WITNESSES += shadow_types.witnesses(r"argidx_", ["C02"])
 BOUNDED = [
     {"name": "builtin_argument_calls", "kind": "builtin-args", "props": ["C02"], "input": "", "preludes": _PRELUDES, "skip": ["read_line"],
      "min_inputs": 100, "n_inputs": 140,
@@ -114,9 +117,9 @@ class ArgIdxSlicer(Slicer):
         # assumption indices.argidx.receiver_variant (see ASSUMPTIONS): a built-in method arm is only
         # entered with a receiver of the method's own type, so the catch-all arm of the match on the
         # receiver's variant is not followed
-        if re.sub(r"\s+", "", scrutinee) == "receiver_value.as_ref()" and pattern.strip() == "_":
-            self.n_dropped += 1
-            return True
+        # (until the fifth session the catch-all arm of `match receiver_value.as_ref()` was dropped here on the assumption
+        # that a built-in method arm is only entered with a receiver of the method's own type; `struct Float {}` followed by
+        # `Float{}.ceil()` refutes it: a user-defined type may carry the name of a built-in one.  No arm is dropped now.)
         return False
 
     def render_effect(self, m):
